@@ -8,7 +8,7 @@ LIST_TEXT = ('TLC closes the reachable state space of the policy specification f
              'real cache and TLC validates the recorded (pre, event, post) of every call against the same predicate; seeded random '
              'histories extend the scope. Exhaustive within the instance bounds, sampled beyond.')
 NOTE = ('Trusted: TLC 1.8, the harness observation code, the verif-hooks read-only views. Bounds: instance constants in '
-        'bin/instances.py (keys <= 6, capacities <= 4 in closure; random histories up to 12 keys).')
+        'bin/instances.py (keys <= 6, capacities <= 4 in closure; random histories (no closure) at capacities up to 100 and up to 260 keys).')
 
 CHECKS = {
     # id: (technique, design_ref, level category, extra text)
